@@ -13,6 +13,7 @@ mod c01;
 mod c03;
 mod c16;
 mod c20;
+mod c11;
 
 use util::*;
 
@@ -90,6 +91,7 @@ fn main() {
     "C03" => c03::run_c03(&mut out, &mut rng, thorough),
     "C19" => c03::run_c19(&mut out, &mut rng, thorough),
     "C16" => c16::run(&mut out, &mut rng, thorough),
+    "C11" => c11::run(&mut out, &mut rng, thorough),
     "C08" => c07::run_c08(&mut out, &mut rng, thorough),
     _ => { eprintln!("unknown property {}", prop); std::process::exit(2); }
   }
